@@ -15,10 +15,10 @@ seed-id is <Cxx>-<n>; inbox files are patch.diff/demo.c/run_demo.sh for n = 1 an
 import json, os, re, shutil, subprocess, sys, time
 
 VERIF = os.path.dirname(os.path.dirname(os.path.abspath(__file__)))
-NEIGH = {"C01": "C01 C02 C03 C15", "C02": "C02 C01 C05", "C03": "C03 C01 C10", "C04": "C04 C01 C07", "C05": "C05 C01 C02",
-         "C06": "C06 C18", "C07": "C07 C08 C01", "C08": "C08 C07", "C09": "C09 C11 C12", "C10": "C10 C07 C11",
-         "C11": "C11 C09 C12", "C12": "C12 C20 C09", "C13": "C13 C05", "C14": "C14 C16 C18", "C15": "C15 C01 C18",
-         "C16": "C16 C14 C17", "C17": "C17 C16", "C18": "C18 C14", "C19": "C19", "C20": "C20 C12"}
+NEIGH = {"C01": "C01 C02 C03", "C02": "C02 C01", "C03": "C03 C01 C18", "C04": "C04 C07 C18", "C05": "C05 C01",
+         "C06": "C06 C18", "C07": "C07 C08", "C08": "C08 C07", "C09": "C09 C11 C12", "C10": "C10 C11",
+         "C11": "C11 C09 C18", "C12": "C12 C20 C09", "C13": "C13", "C14": "C14 C18", "C15": "C15 C01 C18",
+         "C16": "C16 C17", "C17": "C17 C16", "C18": "C18", "C19": "C19", "C20": "C20 C12"}
 ALL = ["C%02d" % i for i in range(1, 21)]
 
 
